@@ -227,6 +227,12 @@ MUTATIONS += [
     dict(id="C17-get-data-looks-in-tree", prop="C17", file=IXR, old="        self.get_id(BlobType::Data, &BlobId::from(**id))", new="        self.get_id(BlobType::Tree, &BlobId::from(**id))"),
 ]
 
+# ---- restore PackInfo::coalesce
+MUTATIONS += [
+    dict(id="C02-restore-coalesce-across-packs", prop="C02", file=RS, old="        if self.pack_id == other.pack_id // if the pack is identical\n           && self.from_file.is_none()", new="        if self.from_file.is_none()"),
+    dict(id="C02-restore-coalesce-from-file", prop="C02", file=RS, old="           && self.from_file.is_none() // and we don't read from a present file\n", new=""),
+]
+
 HARMLESS = [
     dict(id="H-C05-trees-symlink-continue", prop="C05", file=CK, old="        for node in tree.nodes {\n            match node.node_type {", new="        for node in tree.nodes {\n            if node.node_type == NodeType::Symlink {\n                continue;\n            }\n            match node.node_type {"),
 ]
